@@ -337,6 +337,118 @@ def server_worker(job):
     return acc
 
 
+# ------------------------------------------------------------------ (b2) applications that refuse or fail a method
+APP_METHODS = ['open', 'open56', 'close', 'read', 'write', 'lstat', 'fstat', 'setstat', 'lsetstat', 'fsetstat', 'scandir',
+               'remove', 'mkdir', 'rmdir', 'realpath', 'stat', 'rename', 'readlink', 'symlink', 'link', 'lock', 'unlock',
+               'posix_rename', 'statvfs', 'fstatvfs', 'fsync']
+
+
+def reply_well_typed(v, p):
+    """is the reply packet p (type byte, id, body) well-formed for its own type in version v?"""
+    try:
+        t = p[0]
+        pk = SSHPacket(p[5:])
+        if t == 101:
+            pk.get_uint32()
+            if pk:
+                pk.get_string()
+                pk.get_string()
+        elif t == 102:
+            pk.get_string()
+        elif t == 103:
+            pk.get_string()
+            if pk and v >= 6:
+                pk.get_boolean()
+        elif t == 104:
+            n = pk.get_uint32()
+            if n > 1000:
+                return False
+            for _ in range(n):
+                SFTPName.decode(pk, v)
+            if pk and v >= 6:
+                pk.get_boolean()
+        elif t == 105:
+            SFTPAttrs.decode(pk, v)
+        elif t == 201:
+            return True
+        else:
+            return False
+        pk.check_end()
+        return True
+    except Exception:           # pylint: disable=broad-except
+        return False
+
+
+def refusing_worker(job):
+    """an application SFTPServer that refuses (NotImplementedError) or fails (OSError, SFTPError, ValueError)
+    one method at a time: every request still gets one reply with its id; where the refusal changes the
+    answer it becomes STATUS OP_UNSUPPORTED / the mapped error code; every reply parses as its own type"""
+    v, methods = job
+    acc = core.Acc()
+    root = os.path.join(SCRATCH, 'ref-%d' % os.getpid())
+    reqs = requests(v)
+    names = [n for n in reqs if not n.startswith('type') and n not in ('x-unknown', 'close')] + ['close']   # handles stay open until the end
+    script = [(reqs[n][0], 300 + i, reqs[n][1]) for i, n in enumerate(names)]
+    _mkroot(root)
+    base, _h, _e, _x = server_session(v, root, SFTPServer, script)
+    base_by_id = {struct.unpack('>I', p[1:5])[0]: p for p in base}
+    for m in methods:
+        for how, exc, code in (('NotImplementedError', NotImplementedError(), 8), ('PermissionError', PermissionError(13, 'denied'), 3),
+                               ('SFTPFailure', asyncssh.SFTPFailure('no'), 4)):
+            def boom(self, *a, _exc=exc, **kw):
+                raise _exc
+            cls = type('App', (SFTPServer,), {m: boom})
+            _mkroot(root)
+            try:
+                replies, _h, ended, lexc = server_session(v, root, cls, script)
+            except Livelock as e:
+                acc.violation('serve:livelock:v%d:refusing-%s' % (v, m), str(e), {'kind': 'refusing', 'v': v, 'm': m})
+                continue
+            by_id = {}
+            for p in replies:
+                by_id.setdefault(struct.unpack('>I', p[1:5])[0], []).append(p)
+            viol = []
+            for i, n in enumerate(names):
+                rs = by_id.get(300 + i, [])
+                if len(rs) != 1:
+                    viol.append(('reply-count', 'request %s got %d replies' % (n, len(rs))))
+                    continue
+                p = rs[0]
+                if p[0] not in reqs[n][2]:
+                    viol.append(('reply-type', 'request %s answered with type %d' % (n, p[0])))
+                elif not reply_well_typed(v, p):
+                    viol.append(('reply-ill-typed', 'request %s answered with type %d whose body is not of that type: %s' % (n, p[0], p[5:40].hex())))
+                elif p != base_by_id.get(300 + i) and p[0] != 101 and base_by_id.get(300 + i, b'\0')[0] != 101 and how == 'NotImplementedError' \
+                        and p[0] == base_by_id[300 + i][0] and n not in ('readdir', 'fstat', 'stat', 'lstat', 'read'):
+                    pass
+            if lexc:
+                viol.append(('loop-exception', repr(lexc[0].get('exception') or lexc[0].get('message'))[:200]))
+            # the refused method's own request: exact status
+            own = {'open': 'open' if v <= 4 else None, 'open56': 'open' if v >= 5 else None, 'lstat': 'lstat', 'stat': 'stat', 'fstat': 'fstat',
+                   'realpath': 'realpath', 'readlink': 'readlink', 'statvfs': 'x-statvfs', 'fstatvfs': 'x-fstatvfs', 'remove': 'remove',
+                   'mkdir': 'mkdir', 'rmdir': 'rmdir', 'rename': 'rename', 'setstat': 'setstat', 'posix_rename': 'x-posix-rename',
+                   'fsync': 'x-fsync', 'lsetstat': 'x-lsetstat', 'read': 'read', 'write': 'write', 'fsetstat': 'fsetstat', 'close': 'close', 'symlink': 'symlink' if v <= 5 else None}.get(m)
+            if own == 'realpath' and v >= 6:
+                own = 'realpath-compose'
+            b_own = base_by_id.get(300 + names.index(own)) if own and own in names else None
+            if b_own is not None and b_own[0] == 101 and struct.unpack('>I', b_own[5:9])[0] != 0:
+                own = None              # the stock server already answers this request with an error
+            if own and own in names:
+                rs = by_id.get(300 + names.index(own), [])
+                if len(rs) == 1:
+                    got = (rs[0][0], struct.unpack('>I', rs[0][5:9])[0] if len(rs[0]) >= 9 else None)
+                    want = (101, expected_code(code, v))
+                    if got != want:
+                        viol.append(('refusal-not-reported', 'application %s raises %s: request %s answered type/code %r, expected %r'
+                                     % (m, how, own, got, want)))
+            acc.add(core.digest((v, m, how, tuple(sorted((k, x[0][0]) for k, x in by_id.items())))), transitions=len(script),
+                    sample={'version': v, 'application_method': m, 'raises': how} if m == 'stat' and how == 'NotImplementedError' else None)
+            for k, d in viol[:6]:
+                acc.violation('serve:%s:v%d:app-%s-%s' % (k, v, m, how), d, {'kind': 'refusing', 'v': v, 'm': m})
+    shutil.rmtree(root, ignore_errors=True)
+    return acc
+
+
 def _mkroot(root):
     shutil.rmtree(root, ignore_errors=True)
     os.makedirs(os.path.join(root, 'd'))
@@ -653,6 +765,7 @@ def main(tier, seed):
             sj.append((v, ns[i:i + 4], tier))
     acc.merge(core.pmap(server_worker, core.rotate(sj, seed)))
     acc.merge(core.pmap(errmap_worker, [3, 4, 5, 6]))
+    acc.merge(core.pmap(refusing_worker, [(v, APP_METHODS[i::4]) for v in (3, 4, 5, 6) for i in range(4)]))
     n_b = acc.evaluations - n_a
     cj = []
     for v, fields in ((3, V3_FIELDS), (4, V4_FIELDS), (5, V5_FIELDS), (6, V6_FIELDS)):
@@ -667,7 +780,9 @@ def main(tier, seed):
             'request may be answered correctly, or (once) with each wrong reply type, an unknown id, a duplicate id '
             'or another caller\'s id, or a caller is cancelled and its reply arrives late; DFS bound %d; (b) versions '
             '3-6 x every request type/extension x well-formed, every truncation, trailing byte, then a probe '
-            'request; error mapping for 16 errno values and 19 SFTPError classes per version; (c) attribute codecs '
+            'request; error mapping for 16 errno values and 19 SFTPError classes per version; an application that '
+            'refuses or fails each of 26 methods in turn (every reply parses as its own type, the refused request '
+            'gets STATUS with the mapped code); (c) attribute codecs '
             'for every subset of 5 (v3), 9 (v4), 10 (v5), 16 (v6) field groups incl. independent layout encoders; '
             'every file type x every sequence of <= 3 versions encoded from one object (no mutation, no history)'
             % (len(call_sets), bound))
@@ -686,6 +801,9 @@ def replay(rep):
     elif r['kind'] == 'server':
         acc = server_worker((r['v'], [r['name']], 'thorough'))
         v = [x for x in acc.violations]
+        print(json.dumps(v[:4], indent=1, default=repr))
+    elif r['kind'] == 'refusing':
+        v = refusing_worker((r['v'], [r['m']])).violations
         print(json.dumps(v[:4], indent=1, default=repr))
     elif r['kind'] == 'errmap':
         v = errmap_worker(r['v']).violations
